@@ -50,7 +50,7 @@ PoolFile == { L("base", D("file", "RF", "",     {"b1"}, TRUE)),
               L("base", D("doc",  "RD", "",     {"b1"}, TRUE)),
               L("A",    D("str",  "CA", "base", {"b1"}, FALSE)) }
 
-PoolThorough == PoolQuick \cup PoolFile \cup
+PoolThorough == PoolQuick \cup
             { L("base", D("str", "R2", "",     B12,    TRUE)),
               L("base", D("str", "S",  "base", {"b2"}, FALSE)),   \* extends the template it replaces
               L("A",    D("str", "X",  "",     {"b1"}, TRUE)),    \* an unrelated root under a child's name
@@ -58,6 +58,8 @@ PoolThorough == PoolQuick \cup PoolFile \cup
               L("B",    D("doc", "DB", "A",    {"b1"}, TRUE)),
               L("G",    D("str", "GB", "A",    {"b1"}, FALSE)),
               L("G",    D("doc", "DG", "B",    B12,    FALSE)) }
+
+PoolAll == PoolThorough \cup PoolFile
 
 Dt(v, items, c, ik) == [v |-> v, items |-> items, c |-> c, ik |-> ik]
 Data1 == Dt("val1", <<"n1", "n2">>, TRUE, "map")
